@@ -62,6 +62,14 @@ def _classify(ln, pre):
             out.append("dist:>=3-stakers-on-an-operator")
         if len(env["vals"]) >= 3:
             out.append("dist:3-validators")
+        # a validator that still has voting power while none of its stakers has active value (jailed mid-epoch)
+        ents = {e["o"]: e["e"] for e in env["ent"]}
+        rates = {r["o"]: r["v"] for r in env["rate"]}
+        zs = [v["o"] for v in env["vals"] if v["o"] and v["pw"] != "0" and all(x["p"] == "0" for x in ents.get(v["o"], []))]
+        if zs and env["ltp"] != "0":
+            out.append("dist:validator-with-power-but-zero-staker-value")
+            if any(rates.get(o) != "1000000000000000000" for o in zs) and (pre["fc"] != "0" or (mint and env["reward"] != "0")):
+                out.append("dist:zero-staker-value,rate<100%,fees>0")
         if any(len({x["avs"] for x in e["e"]}) >= 2 for e in env["ent"]):
             out.append("dist:operator-in-2-AVSs")
     if mint:
@@ -128,7 +136,8 @@ def _run(tier, seed, harness, d):
                "one fresh full ExocoreApp per behaviour; the world (powers, commission rates, tax, reward, identifiers) is its genesis; "
                "real blocks: EndBlock, Commit, BeginBlock with header times chosen so that the wanted epoch identifiers end",
                "FeeIncome is realised by bank SendCoinsFromAccountToModule or by the fee of a real signed cosmos tx (DeliverTx); "
-               "Burn by bank BurnCoins through the evm module account; Delegate by deposit + DelegateTo at keeper level",
+               "Burn by bank BurnCoins through the evm module account; Delegate by deposit + DelegateTo at keeper level; Jail by the dogfood "
+               "keeper's Jail (the call x/slashing makes for downtime)",
                "the environment of the allocation (validators, powers, last total power, rates, staker entries with their USD values) is "
                "OBSERVED through the keepers' getters before the step and handed to the model as input; the voting-power formulas are C05's",
                "the zero-power world is a one-validator genesis whose LastTotalPower is overwritten with 0 at keeper level "
@@ -160,6 +169,8 @@ def _run(tier, seed, harness, d):
             raise vlib.Infra(f"{cfg}: model counterexample {m['violated']} ({what})\n" + m["out"][-3000:])
 
     guard("MC_Fees_dev.cfg", "defect L11 (fixed in 311e836) seeded into the model: the invariants must detect it", ["InvBooked", "InvSolvent"])
+    guard("MC_Fees_zs_dev.cfg", "seeded omission: no booking when a validator with power has zero total staker value (jailed): "
+          "the model must reach that class and InvBooked must see it", ["InvBooked"])
     guard("MC_Fees_avs.cfg", "defect L27 (fixed in 9ad8de4) seeded into the model, second AVS listed first: negative remainder panics", ["InvNoPanic"])
     guard("MC_Fees_acc.cfg", "current tree with a second AVS before / after the chain AVS: no panic, all invariants hold", [])
     # 2..4
@@ -189,7 +200,8 @@ def _run(tier, seed, harness, d):
     res["distinct_nontrivial"] = len(distinct)
     # vacuity guard: the interesting classes must have been executed on the real code
     need = ["dist:fees>0", "dist:fees=0", "dist:power>0", "dist:power=0", "mint:reward>0", "mint:reward=0", "BeginBlock:none",
-            "dist:staker-listed-twice", "dist:3-validators", "Burn:ok", "FeeIncome:ok"]
+            "dist:staker-listed-twice", "dist:3-validators", "Burn:ok", "FeeIncome:ok", "Jail:ok",
+            "dist:validator-with-power-but-zero-staker-value", "dist:zero-staker-value,rate<100%,fees>0"]
     missing = [c for c in need if counts[c] == 0]
     if missing or counts["BeginBlock:dist"] + counts["BeginBlock:dist+mint"] == 0 or counts["BeginBlock:mint"] + counts["BeginBlock:dist+mint"] == 0:
         raise vlib.Infra(f"vacuous run: classes never executed: {missing} (event_counts={dict(counts)})")
